@@ -74,9 +74,18 @@ def endsWithdrawn (cs : List Call) : Bool :=
   | some c => c.kind = .rescind && !c.unanimous
   | none => true
 
-def anyPairs (ts : List (List Call)) (p : Nat → Call → Nat → Call → Bool) : Bool :=
-  (List.range ts.length).any fun i => (List.range ts.length).any fun j =>
-    (ts.getD i []).any fun a => (ts.getD j []).any fun b => p i a j b
+/-- a `rescind` answered `Unanimous` although the voter itself has no outstanding vote (single pass; `clear` = the
+voter's last effective call was a `rescind` answered `UnanimityPending`, or it has not voted yet) -/
+def rescindUWithoutVote : Bool → List Call → Bool
+  | _, [] => false
+  | clear, c :: rest =>
+    if c.kind = .rescind then
+      if c.unanimous then (clear || rescindUWithoutVote clear rest) else rescindUWithoutVote true rest
+    else rescindUWithoutVote false rest
+
+/-- the ticket at which the first `Unanimous` answer was complete -/
+def firstUnanimousEnd (all : List Call) : Option Nat :=
+  (all.filter (·.unanimous)).foldl (fun m c => match m with | none => some c.stop | some x => some (min x c.stop)) none
 
 def check (line out : String) : Option String :=
   match words line with
@@ -86,18 +95,23 @@ def check (line out : String) : Option String :=
     match tts.mapM parseThread, toks.find? (fun t => t.startsWith "ready=") with
     | some ts, some rd =>
       let ready := rd = "ready=1"
-      let all := ts.flatten
-      let anyU := all.any (·.unanimous)
-      if anyU && !ready then some "th-unanimous-but-receiver-not-ready"
-      else if anyPairs ts (fun _ a _ b => a.unanimous && b.kind = .rescind && !b.unanimous && decide (a.stop < b.start)) then
+      let all : List Call := ts.flatten
+      let uEnd : Option Nat := firstUnanimousEnd all
+      let idx := List.range ts.length
+      if uEnd.isSome && !ready then some "th-unanimous-but-receiver-not-ready"
+      else if (match uEnd with
+          | some u => all.any (fun (b : Call) => b.kind = Kind.rescind && !b.unanimous && decide (u < b.start))
+          | none => false) then
         some "th-rescind-pending-after-unanimity"
-      else if (all.filter (fun c => c.kind = .vote && c.unanimous)).length > 1 then some "th-two-unanimous-votes"
-      else if anyPairs ts (fun i a j _ => i ≠ j && a.unanimous && (clearIntervals (some 0) (ts.getD j [])).any (within a)) then
+      else if (all.filter (fun (c : Call) => c.kind = Kind.vote && c.unanimous)).length > 1 then some "th-two-unanimous-votes"
+      else if (match uEnd with
+          | some u =>
+            -- the `Unanimous` answers that are not simply later than an earlier complete one
+            idx.any fun i => ((ts.getD i []).filter (fun (a : Call) => a.unanimous && decide (a.start ≤ u))).any fun (a : Call) =>
+              idx.any fun j => i ≠ j && (clearIntervals (some 0) (ts.getD j [])).any (within a)
+          | none => false) then
         some "th-unanimous-while-other-has-no-vote"
-      else if (List.range ts.length).any (fun i =>
-          (ts.getD i []).any fun a => a.kind = .rescind && a.unanimous && (clearIntervals (some 0) (ts.getD i [])).any
-            (fun iv => decide (iv.1 ≤ a.start) && (match iv.2 with | none => true | some hi => decide (a.stop ≤ hi)))) then
-        some "th-rescind-unanimous-without-own-vote"
+      else if ts.any (rescindUWithoutVote true) then some "th-rescind-unanimous-without-own-vote"
       else if ts.all endsVoted && !ready then some "th-all-final-votes-but-not-ready"
       else if ts.any endsWithdrawn && ready then some "th-final-rescind-pending-but-ready"
       else none
